@@ -863,5 +863,5 @@ func main() {
 		[]string{"1 connection per host, round-robin host selection, request timeout 100ms, protocol v4, no control connection, no retry policy",
 			"every PREPARE returns a fresh host-specific id (<host>/<statement>/g<n>); earlier ids stay valid until the node forgets them",
 			"stream-allocator atomics are not scheduling points (C08); the LRU has no internal scheduling points, so its length is read between steps"},
-		defs, 75*time.Second, 12*time.Minute, nil)
+		defs, 75*time.Second, 25*time.Minute, nil)
 }
